@@ -302,7 +302,7 @@ def make_model_image(shape, model, params_table, *, model_shape=None,
             # so needs to be calculated for each source
             mod_shape = _model_shape_from_bbox(model, bbox_factor=bbox_factor)
         else:
-            mod_shape = model_shape
+            mod_shape = tuple(model_shape)
 
         try:
             slc_lg, _ = overlap_slices(shape, mod_shape, (y0, x0), mode='trim')
